@@ -318,7 +318,8 @@ func (c *Classifier) LoadLicenses(dir string) error {
 		if err != nil {
 			return nil
 		}
-		if !strings.HasSuffix(path, "txt") {
+		// A directory can have a name that ends in "txt" as well.
+		if info.IsDir() || !strings.HasSuffix(path, "txt") {
 			return nil
 		}
 		files = append(files, path)
